@@ -263,7 +263,12 @@ def check_case(ctx, case):
         levels = results[0]
         if not np.array_equal(levels[0].view(np.uint8), vol.view(np.uint8)):
             ctx.fail("scale 0 was modified by the pyramid computation")
-        downscaler = downscaling.get_downscaler(case["method"], info, opts)
+        # the reference names the method explicitly ("auto" is documented as
+        # average for images and stride for segmentations)
+        explicit = case["method"]
+        if explicit == "auto":
+            explicit = "average" if info["type"] == "image" else "stride"
+        downscaler = downscaling.get_downscaler(explicit, None, opts)
         for i in range(len(scales) - 1):
             f = [1 if a == b else 2 for a, b in zip(scales[i]["size"],
                                                     scales[i + 1]["size"])]
